@@ -100,12 +100,13 @@ type ProbeOp struct {
 }
 
 type ProbeSpec struct {
-	Kind string   `json:"kind"`
-	V    any      `json:"v,omitempty"`
-	Ctor string   `json:"ctor,omitempty"`
-	Args []any    `json:"args,omitempty"`
-	Deps []string `json:"deps,omitempty"`
-	Tags []string `json:"tags,omitempty"` // tags (priority 0) of an overriding service
+	Kind  string   `json:"kind"`
+	V     any      `json:"v,omitempty"`
+	Ctor  string   `json:"ctor,omitempty"`
+	Args  []any    `json:"args,omitempty"`
+	Deps  []string `json:"deps,omitempty"`
+	Tags  []string `json:"tags,omitempty"`  // tags (priority 0) of an overriding service
+	Scope string   `json:"scope,omitempty"` // declared scope of an overriding service ("" = none declared)
 }
 
 type ProbeSession struct {
